@@ -3,16 +3,17 @@
    dicts of vtlengine.Utils (import), the two tables of docs/data_structures.rst, and the complete result table of the real
    to_vtl_json over every single-component structure (41 data types x 3 roles; Schema / DataStructureDefinition / Dataflow,
    local / concept data type — six variants checked identical by the translator).
-   `engine_to_vtl_json` is the model the engine is tied to (C27_model_is_code): on the unchanged tree the faithful `_impl`
-   variant.  After a repair of the engine switch it to `to_vtl_json_spec`: C27_model_is_code must then hold for it,
-   C27_mapping_total_or_rejected holds for the engine and the `_refuted` theorem goes away. *)
+   `engine_to_vtl_json` is the model the engine is tied to (C27_model_is_code): since the repair of to_vtl_json in /repo
+   (8357c84) that is the documented function `to_vtl_json_spec` (an unmapped data type -> InputValidationException).
+   `before_fix_to_vtl_json` is the code as it was before (dict indexed directly -> raw KeyError); it is NOT tied to the tree and
+   only carries the regression witness C27_mapping_total_or_rejected_before_fix. *)
 From Coq Require Import String List Bool Permutation.
 Import ListNotations.
 From VTL Require Import Model.Sdmx Proofs.SdmxP Gen.Sdmx.
 Open Scope string_scope.
 
-Definition engine_to_vtl_json := to_vtl_json_impl code_dtype_map code_role_map.
-Definition documented_to_vtl_json := to_vtl_json_spec code_dtype_map code_role_map.
+Definition engine_to_vtl_json := to_vtl_json_spec code_dtype_map code_role_map.
+Definition before_fix_to_vtl_json := to_vtl_json_impl code_dtype_map code_role_map.
 
 (* ---------------------------------------------------------------- the tie *)
 (* the installed pysdmx has exactly the three roles of the model *)
@@ -36,45 +37,46 @@ Definition mapped (dt : string) : bool := match lookup dt code_dtype_map with So
 Lemma roles_mapped : forall r, lookup (role_name r) code_role_map <> None.
 Proof. destruct r; vm_compute; discriminate. Qed.
 
-(* documented behaviour: for ANY list of components the result is a converted structure or an input-validation error *)
+(* for ANY list of components the result is a converted structure or an input-validation error — never a raw exception *)
 Theorem C27_mapping_total_or_rejected : forall cs,
-  (exists vs, documented_to_vtl_json cs = Converted vs) \/ documented_to_vtl_json cs = InputValidation.
+  (exists vs, engine_to_vtl_json cs = Converted vs) \/ engine_to_vtl_json cs = InputValidation.
 Proof.
-  intros cs. destruct (documented_to_vtl_json cs) as [vs| |k|w] eqn:E; [left; eauto | right; reflexivity | |];
-    exfalso; unfold documented_to_vtl_json, to_vtl_json_spec in E;
+  intros cs. destruct (engine_to_vtl_json cs) as [vs| |k|w] eqn:E; [left; eauto | right; reflexivity | |];
+    exfalso; unfold engine_to_vtl_json, to_vtl_json_spec in E;
     destruct (failure_is_on_unmapped _ _ _ _ _ E) as (k' & Hk); try discriminate; intros vs; discriminate.
 Qed.
 
-(* the engine: a data type of the installed pysdmx that is not in VTL_DTYPES_MAPPING escapes as a raw KeyError *)
-Theorem C27_mapping_total_or_rejected_refuted : exists dt r, In dt pysdmx_dtypes /\
-  engine_to_vtl_json [mkS "C1" r dt] = RawKeyErr dt /\
-  assoc_single (dt, r) singles_tab = Some (RawKeyErr dt).
-Proof. exists "GeospatialInformation", Measure. split; [vm_compute; tauto|]. split; vm_compute; reflexivity. Qed.
-
-(* what does hold for the engine: structures whose data types are all mapped are converted, for ANY component list;
-   and a failure is always the raw KeyError of an unmapped key *)
-Theorem C27_mapping_total_or_rejected_partial : forall cs,
-  ((forall c, In c cs -> mapped (sc_dtype c) = true) -> exists vs, engine_to_vtl_json cs = Converted vs) /\
-  (forall o, engine_to_vtl_json cs = o -> (forall vs, o <> Converted vs) -> exists k, o = RawKeyErr k).
+(* converted exactly when every data type is mapped (every role always is) *)
+Theorem C27_converted_iff_all_mapped : forall cs,
+  (exists vs, engine_to_vtl_json cs = Converted vs) <-> (forall c, In c cs -> mapped (sc_dtype c) = true).
 Proof.
   intros cs. split.
+  - intros (vs & H) c Hc. apply components_faithful in H; [|intros; discriminate].
+    assert (G : In c (grouped cs)) by (apply grouped_In; exact Hc). clear Hc.
+    induction H as [|c' v l l' (_ & _ & Ht & _) _ IH]; [destruct G|].
+    destruct G as [<-|G]; [unfold mapped; rewrite Ht; reflexivity | exact (IH G)].
   - intros H. apply total_when_mapped. intros c Hc. split.
-    + specialize (H c Hc). unfold mapped in H. destruct (lookup (sc_dtype c) code_dtype_map); [discriminate | discriminate].
+    + specialize (H c Hc). unfold mapped in H. destruct (lookup (sc_dtype c) code_dtype_map); discriminate.
     + apply roles_mapped.
-  - intros o E N. exact (failure_is_on_unmapped _ _ _ _ _ E N).
 Qed.
 
-(* the unmapped data types of the installed pysdmx are exactly the rows of the real function's table that are not converted *)
-Theorem C27_unmapped_iff_table_failure : forall dt r, In dt pysdmx_dtypes ->
-  (mapped dt = false <-> exists k, assoc_single (dt, r) singles_tab = Some (RawKeyErr k)).
+(* regression witness: before the repair an unmapped data type of the installed pysdmx escaped as a raw KeyError *)
+Theorem C27_mapping_total_or_rejected_before_fix : exists dt r, In dt pysdmx_dtypes /\
+  before_fix_to_vtl_json [mkS "C1" r dt] = RawKeyErr dt /\ engine_to_vtl_json [mkS "C1" r dt] = InputValidation /\
+  assoc_single (dt, r) singles_tab = Some InputValidation.
+Proof. exists "GeospatialInformation", Measure. split; [vm_compute; tauto|]. repeat split; vm_compute; reflexivity. Qed.
+
+(* the unmapped data types of the installed pysdmx are exactly the rows of the real function's table that are rejected *)
+Theorem C27_unmapped_iff_table_rejection : forall dt r, In dt pysdmx_dtypes ->
+  (mapped dt = false <-> assoc_single (dt, r) singles_tab = Some InputValidation).
 Proof.
   intros dt r Hd. rewrite (C27_model_is_code dt r Hd).
   assert (S : forallb (fun dt => forallb (fun r => Bool.eqb (negb (mapped dt))
-             (match engine_to_vtl_json [mkS "C1" r dt] with RawKeyErr _ => true | _ => false end)) all_roles) pysdmx_dtypes = true)
+             (match engine_to_vtl_json [mkS "C1" r dt] with InputValidation => true | _ => false end)) all_roles) pysdmx_dtypes = true)
     by (vm_compute; reflexivity).
   pose proof (forallb_In _ _ (forallb_In _ _ S dt Hd) r (all_roles_complete r)) as B. apply Bool.eqb_prop in B.
   destruct (engine_to_vtl_json [mkS "C1" r dt]) eqn:E; destruct (mapped dt); simpl in B; try discriminate;
-    split; intros H; try discriminate; try reflexivity; try (destruct H as (? & H); discriminate); eauto.
+    split; intros H; try discriminate; try reflexivity.
 Qed.
 
 (* ---------------------------------------------------------------- the mapping is the documented one *)
@@ -107,7 +109,7 @@ Qed.
 (* ---------------------------------------------------------------- one component each; only dimensions non-nullable *)
 Theorem C27_one_component_each : forall cs vs, engine_to_vtl_json cs = Converted vs ->
   Permutation (map sc_id cs) (map vc_name vs) /\ length vs = length cs.
-Proof. intros cs vs H. apply one_component_each with (dmap := code_dtype_map) (rmap := code_role_map) (u := fun k => RawKeyErr k); [intros; discriminate | exact H]. Qed.
+Proof. intros cs vs H. apply one_component_each with (dmap := code_dtype_map) (rmap := code_role_map) (u := fun _ => InputValidation); [intros; discriminate | exact H]. Qed.
 
 Lemma role_map_values : forall r, lookup (role_name r) code_role_map =
   Some (match r with Dimension => "Identifier" | Measure => "Measure" | Attribute => "Attribute" end).
@@ -125,29 +127,23 @@ Proof.
     destruct (sc_role c); simpl; split; intros; try discriminate; reflexivity.
 Qed.
 
-(* the same four statements hold for the documented variant (spec), e.g.: *)
-Theorem C27_one_component_each_documented : forall cs vs, documented_to_vtl_json cs = Converted vs ->
-  Permutation (map sc_id cs) (map vc_name vs) /\ length vs = length cs.
-Proof. intros cs vs H. apply one_component_each with (dmap := code_dtype_map) (rmap := code_role_map) (u := fun _ => InputValidation); [intros; discriminate | exact H]. Qed.
-
 (* non-vacuity: a five-component structure over all roles is converted (dimensions first), an unmapped type is not *)
 Example C27_nonvacuous :
   engine_to_vtl_json [mkS "A" Attribute "String"; mkS "M" Measure "Double"; mkS "D1" Dimension "Integer";
                       mkS "T" Dimension "ObservationalTimePeriod"; mkS "M2" Measure "TimeRange"] =
   Converted [mkV "D1" "Identifier" "Integer" false; mkV "T" "Identifier" "Time_Period" false; mkV "M" "Measure" "Number" true;
              mkV "M2" "Measure" "Time" true; mkV "A" "Attribute" "String" true] /\
-  engine_to_vtl_json [mkS "D1" Dimension "Integer"; mkS "X" Measure "XHTML"] = RawKeyErr "XHTML" /\
-  documented_to_vtl_json [mkS "D1" Dimension "Integer"; mkS "X" Measure "XHTML"] = InputValidation.
+  engine_to_vtl_json [mkS "D1" Dimension "Integer"; mkS "X" Measure "XHTML"] = InputValidation /\
+  before_fix_to_vtl_json [mkS "D1" Dimension "Integer"; mkS "X" Measure "XHTML"] = RawKeyErr "XHTML".
 Proof. vm_compute. repeat split. Qed.
 
 Print Assumptions C27_role_enum_is_modelled.
 Print Assumptions C27_model_is_code.
 Print Assumptions C27_mapping_total_or_rejected.
-Print Assumptions C27_mapping_total_or_rejected_refuted.
-Print Assumptions C27_mapping_total_or_rejected_partial.
-Print Assumptions C27_unmapped_iff_table_failure.
+Print Assumptions C27_converted_iff_all_mapped.
+Print Assumptions C27_mapping_total_or_rejected_before_fix.
+Print Assumptions C27_unmapped_iff_table_rejection.
 Print Assumptions C27_mapping_matches_doc.
 Print Assumptions C27_components_as_documented.
 Print Assumptions C27_one_component_each.
 Print Assumptions C27_only_dimensions_non_nullable.
-Print Assumptions C27_one_component_each_documented.
